@@ -677,6 +677,9 @@ def run(ctx):
     rep.assumptions += ['clang -O0 IR of the instantiated skeleton is a faithful rendering of the generated C/C++ source',
                         'user actions leave yy_hold_char alone and reach the buffer only through the documented entry points']
     c03.flush_vac(rep)
+    import macro_hygiene
+    macro_hygiene.check(ctx, 'C08.R9', {'yyless', 'unput', 'yyunput'}, ['yyless', 'yyunput'])
+    rep.floor('C08.R9', 6, 'yyless()/yyunput() (and unput() where defined) in the nr, r and C++ instantiation of the cpp skeleton')
     return rep.finish('other',
         'Must-pass-through rules for the hold-character protocol on LLVM IR of %d instantiated scanner variants (nr, r, C++, c99, go): restore and '
         'take shapes are recognised by data flow (store of yy_hold_char through a tainted buffer pointer / store to yy_hold_char of a byte loaded '
